@@ -20,6 +20,36 @@ ClosedKinds == {"TimeStamp", "TimeInterval", "BoundingBox"}
 RoundKinds  == {"LineString", "MultiLineString"}      \* buffered with round caps (inscribed 32-gons)
 Negative(b) == b[1] < 0 \/ b[2] < 0
 
+(***************************************************************************)
+(* The numeric TYPE of the buffer arguments.  The statement quantifies     *)
+(* over "every pair of non-negative buffers": a number is a number, be it  *)
+(* a Python int or float or a numpy scalar (signed, UNSIGNED or floating). *)
+(* A case therefore names a type for each of its four buffer arguments     *)
+(* (t1, t2 = <<type of the time buffer, type of the frequency buffer>>),   *)
+(* and every acceptance clause below applies unchanged: Req depends on the *)
+(* VALUE only -- same value, other type, same result.                      *)
+(* Fits says when a buffer of v sub-ticks can be written in a type without *)
+(* changing its value (integral number of seconds / Hz for the integer     *)
+(* types, within range for the small unsigned ones, 24 significant bits    *)
+(* for float32); ArgType falls back to the Python float otherwise.         *)
+(***************************************************************************)
+BufTypes == <<"int", "float", "np.float64", "np.float32", "np.int64", "np.uint8", "np.uint16", "np.uint32", "np.uint64">>
+SubPerSec == <<2, 4, 16>>            \* time sub-ticks per second at the binder's time unit u = 1, 2, 3
+HzPerSub == 64
+RECURSIVE OddPart(_)
+OddPart(n) == IF n = 0 THEN 0 ELSE IF n % 2 = 0 THEN OddPart(n \div 2) ELSE n
+Integral(axis, v, u) == axis = "f" \/ v % SubPerSec[u] = 0
+InUnits(axis, v, u)  == IF axis = "f" THEN v * HzPerSub ELSE v \div SubPerSec[u]       \* seconds / Hz, when integral
+Fits(ty, axis, v, u) ==
+    CASE ty \in {"float", "np.float64"} -> TRUE
+      [] ty = "np.float32"            -> OddPart(Abs(v)) < 16777216
+      [] ty \in {"int", "np.int64"}   -> Integral(axis, v, u)
+      [] ty = "np.uint8"              -> v >= 0 /\ Integral(axis, v, u) /\ InUnits(axis, v, u) <= 255
+      [] ty = "np.uint16"             -> v >= 0 /\ Integral(axis, v, u) /\ InUnits(axis, v, u) <= 65535
+      [] ty \in {"np.uint32", "np.uint64"} -> v >= 0 /\ Integral(axis, v, u)          \* every lattice value is below 2^31
+ArgType(ty, axis, v, u) == IF Fits(ty, axis, v, u) THEN ty ELSE "float"
+ArgTypes(ty, b, u) == <<ArgType(ty, "t", b[1], u), ArgType(ty, "f", b[2], u)>>
+
 (* ---- closed forms: "exactly the interval or box widened by the buffers" (clamped at the domain edges) ---- *)
 \* The domain is time >= 0 and 0 <= frequency <= MAX_FREQUENCY: TIME HAS NO UPPER EDGE.  The start is clamped at 0,
 \* the end is end + tb however large (an event days into a recording, a buffer of months); only frequencies are
@@ -127,7 +157,7 @@ Grows(x, y) == (x = 0 /\ y = 0) \/ (y > 0 /\ y - x >= CeilDiv(x, CapN))      \* 
 MonoComparable(b1, b2) == b1 = b2 \/ (Grows(b1[1], b2[1]) /\ Grows(b1[2], b2[2]))
 
 (***************************************************************************)
-(* Acceptance.  An observation is o.in = [g, b1, b2, probes] and           *)
+(* Acceptance.  An observation is o.in = [g, b1, b2, t1, t2, probes, u] and *)
 (* o.out = [r1, r2], one run per buffer pair:                              *)
 (*   [raised  : "" or the exception class,                                 *)
 (*    type    : type of the returned geometry,                             *)
